@@ -10,6 +10,8 @@
 (* real writer and parser:                                                 *)
 (*   act   "Buy" "Sell" "RoC" "SfLA" "Split"                               *)
 (*   af    "default" "default (R)" "spouse" "spouse (R)" "global"          *)
+(*         "default spouse" (another affiliate whose name begins like the  *)
+(*         default one's)                                                  *)
 (*         (global only for splits)                                        *)
 (*   cur   "CAD" "USD" "EUR";  rate TRUE iff an exchange rate is carried   *)
 (*         (never for CAD)                                                 *)
@@ -38,7 +40,7 @@ TxSpace ==
       /\ (t.act \in {"Split", "SfLA"} => t.cur = "CAD" /\ t.ccur = "none")
       /\ (t.act = "RoC" => t.ccur = "none")
       \* registered affiliates have no cost base: RoC / SfLA rows are not valid for them
-      /\ (t.act \in {"RoC", "SfLA"} => t.af \in {"default", "spouse"}) }
+      /\ (t.act \in {"RoC", "SfLA"} => t.af \in {"default", "spouse", "default spouse"}) }
 
 HasRate(t) == t.cur # "CAD"
 HasCommRate(t) == t.ccur = "USD"
